@@ -193,6 +193,9 @@ func (s *Share[S]) UnmarshalCBOR(data []byte) error {
 	if err != nil {
 		return errs.Wrap(err).WithMessage("failed to unmarshal Pedersen Share")
 	}
+	if dto == nil {
+		return sharing.ErrIsNil.WithMessage("Share DTO is nil")
+	}
 	if dto.ID == 0 {
 		return sharing.ErrIsZero.WithMessage("share ID cannot be zero")
 	}
@@ -325,6 +328,9 @@ func (s *LiftedShare[E, FE]) UnmarshalCBOR(data []byte) error {
 	dto, err := serde.UnmarshalCBOR[*liftedShareDTO[E, FE]](data)
 	if err != nil {
 		return errs.Wrap(err).WithMessage("failed to unmarshal Pedersen LiftedShare")
+	}
+	if dto == nil {
+		return sharing.ErrIsNil.WithMessage("LiftedShare DTO is nil")
 	}
 
 	s2, err := NewLiftedShare(dto.ID, dto.V)
